@@ -398,9 +398,18 @@ pub fn replay_file(path: &str) -> i32 {
     });
     let v: serde_json::Value = serde_json::from_str(&text).expect("replay is not JSON");
     let case = &v["case"];
-    let steps: Vec<Step> = serde_json::from_value(case["steps"].clone()).expect("no steps");
-    let codec = if case["codec"] == "json" { Codec::Json } else { Codec::Bin };
-    let probe = case["probe_after"].as_bool().unwrap_or(false);
+    let (codec, steps, probe) = if case["engine"] == "guarded" {
+        // written by mc_kit::guarded after an input-driven huge allocation: the case is the label
+        let label = case["case"].as_str().unwrap_or("");
+        let Some((codec, steps)) = crate::label::parse(label) else {
+            mc_kit::machinery_error(&format!("cannot parse the case label {label:?}"));
+        };
+        (codec, steps, false)
+    } else {
+        let steps: Vec<Step> = serde_json::from_value(case["steps"].clone()).expect("no steps");
+        let codec = if case["codec"] == "json" { Codec::Json } else { Codec::Bin };
+        (codec, steps, case["probe_after"].as_bool().unwrap_or(false))
+    };
     println!("replaying on typed core + {} bridge: [{}]", codec.name(), show_steps(&steps));
     let mut sys = System::new(&lanes(codec));
     sys.fault = Some(Arc::new(FaultCtx::new(codec)));
